@@ -2191,6 +2191,12 @@ def run(tier):
               'a sort or width remembered for another node is used for this one')
     chk.guard(rule_r14, chk, prog)
     chk.guard(rule_r15, chk, prog)
+    from .. import defaultconsts
+    chk.guard(defaultconsts.report_sorts, chk, prog, 'C16.R16',
+              'the sort (and bit-width) ddSMT infers for its own default '
+              'constants of sort S is S (get_default_constants, get_sort and '
+              'get_bv_width folded on literal sorts)',
+              'a default constant "of the same sort" is proposed for a term of another sort, or is itself re-typed and replaced again')
     extra = None
     if tier == 'thorough':
         from .. import selftest
